@@ -192,7 +192,7 @@ GLOBAL_COLLIDES = r"_h\d+|_rv\d+|_fv\d+|_dv\d+|_ma\d+|_dvc|_ret|_ls|_ll|_c|_|f\d
 SHELL_VARS_COLLIDE = {"BASHOPTS", "BASHPID", "BASH_ARGV", "EUID", "FUNCNAME", "GROUPS", "LC_ALL", "LINENO", "PPID", "RANDOM", "SHELLOPTS", "UID", "IFS", "OPTIND",
                       "PIPESTATUS", "SECONDS", "PATH", "_"}
 # a function keeps its spelling too: the helper routines and the commands the script calls
-FUNC_COLLIDES = r"_sah|_sch|_ssh|echo|eval|local|printf|cat"
+FUNC_COLLIDES = r"_sah|_sch|_ssh|echo|eval|local|printf|cat|exit|read"      # exit: panic ends the script with it; read: input() (thorough tier, seed 1: a function renamed to exit)
 
 
 # one identifier X in each role, in programs that use every helper routine of the bash back-end (slice literal / element store
